@@ -6,6 +6,7 @@ import (
 	"iter"
 	"math/rand"
 	"strconv"
+	"strings"
 
 	"github.com/fluhus/biostuff/formats/fasta"
 )
@@ -30,6 +31,12 @@ func faRead(data []byte) (items []faRec, gotErr bool, panicked bool) {
 	items = []faRec{}
 	var kept []*fasta.Fasta // records are projected after the iteration: a delivered record must stay what it was
 	panicked, _ = catch(func() {
+		if failedReadsFirst {
+			for _, t := range malformedTexts["fasta"] {
+				for range fasta.Reader(strings.NewReader(t)) {
+				}
+			}
+		}
 		seq := fasta.Reader(deliver(data))
 		if faPairedWith != nil { // consumed in lockstep with a reader over another text
 			next, stop := iter.Pull2(fasta.Reader(bytes.NewReader(faPairedWith)))
@@ -303,6 +310,14 @@ func fastaDrive(args []string) error {
 			if sid%9 == 4 && i == 0 { // a name line of exactly / about a power-of-two length ('>' + name = 4096, 8192)
 				f.Name = faRandBytes(r, []int{4094, 4095, 4096, 8191}[(sid/9)%4], "\r\n")
 			}
+			if sid%9 == 8 && i == 0 { // a name of several buffers with the format's own marker at and around every multiple of 4096
+				f.Name = faRandBytes(r, 9000+r.Intn(200), "\r\n>")
+				for _, at := range []int{4094, 4095, 4096, 4097, 8190, 8191, 8192, 8193} {
+					if (at+sid/9)%2 == 0 {
+						f.Name[at] = '>'
+					}
+				}
+			}
 			recs = append(recs, f)
 		}
 		// all fields of all records are laid out back to back in ONE array and handed out as plain sub-slices (their capacity
@@ -384,6 +399,7 @@ func fastaDrive(args []string) error {
 			tw.emit(ev)
 		}
 		readDelivery, faGrow = []int{0, 0, 1, 0, 2, 3}[sid%6], sid%3 == 1
+		failedReadsFirst = sid%3 == 2
 		faPairedWith = nil
 		if sid%5 == 3 {
 			faPairedWith = []byte(">other\nACGT\nAC\n>o2\n\n>o3\nTTTT\n")
